@@ -434,6 +434,7 @@ Definition call_native (name : string) (vs : list value) : M value :=
                                            end
                            | None => (Err "TypeError" "", s)
                            end
+    | [PStr s] => if String.eqb s "" then ret (PInt 0) else raise "TypeError" ""
     | [_; _] => unsup
     | _ => raise "TypeError" ""
     end
@@ -474,6 +475,52 @@ Fixpoint gexs (e : expr) : list string :=
   | _ => []
   end.
 
+(** iteration variables of the comprehensions that sit directly in a function scope, and the names
+    read inside nested lambdas that are not themselves inside a comprehension.  CPython 3.12.1
+    (PEP 709 inlining) turns such a shared name into an unbound cell of the function — a quirk the
+    model does not reproduce: those programs are outside the fragment. *)
+Fixpoint ctargets (e : expr) : list string :=
+  match e with
+  | XBin _ a b => ctargets a ++ ctargets b
+  | XList es => flat_map ctargets es
+  | XLam _ _ args => flat_map ctargets args
+  | XComp elt cl => map fst cl ++ ctargets elt ++ flat_map (fun c => match c with (_, it) => ctargets it end) cl
+  | XWalrus _ e1 => ctargets e1
+  | XCall f args => ctargets f ++ flat_map ctargets args
+  | XAttr e1 _ => ctargets e1
+  | XAppend l x => ctargets l ++ ctargets x
+  | _ => []
+  end.
+
+Fixpoint all_names (e : expr) : list string :=
+  match e with
+  | XName x => [x]
+  | XBin _ a b => all_names a ++ all_names b
+  | XList es => flat_map all_names es
+  | XLam _ body args => all_names body ++ flat_map all_names args
+  | XComp elt cl => all_names elt ++ flat_map (fun c => match c with (_, it) => all_names it end) cl
+  | XWalrus _ e1 => all_names e1
+  | XCall f args => all_names f ++ flat_map all_names args
+  | XAttr e1 _ => all_names e1
+  | XAppend l x => all_names l ++ all_names x
+  | _ => []
+  end.
+
+Fixpoint lnames (e : expr) : list string :=
+  match e with
+  | XBin _ a b => lnames a ++ lnames b
+  | XList es => flat_map lnames es
+  | XLam _ body args => all_names body ++ flat_map lnames args
+  | XComp _ cl => match cl with (_, it1) :: _ => lnames it1 | [] => [] end
+  | XWalrus _ e1 => lnames e1
+  | XCall f args => lnames f ++ flat_map lnames args
+  | XAttr e1 _ => lnames e1
+  | XAppend l x => lnames l ++ lnames x
+  | _ => []
+  end.
+
+Definition inlining_quirk (body : expr) : bool := existsb (fun x => mem x (lnames body)) (ctargets body).
+
 Fixpoint nodup_str (l : list string) : bool :=
   match l with [] => true | x :: r => negb (mem x r) && nodup_str r end.
 
@@ -488,7 +535,7 @@ Fixpoint wf_expr (iters : list string) (in_iter in_cls : bool) (e : expr) : bool
   | XBin _ a b => wf_expr iters in_iter in_cls a && wf_expr iters in_iter in_cls b
   | XList es => forallb (wf_expr iters in_iter in_cls) es
   | XLam ps body args =>
-      nodup_str ps && negb (mem "__builtins__" ps)
+      nodup_str ps && negb (mem "__builtins__" ps) && negb (inlining_quirk body)
       && forallb (wf_expr iters in_iter in_cls) args && wf_expr [] in_iter false body
   | XComp elt cl =>
       let its := (map fst cl ++ iters)%list in
@@ -870,6 +917,7 @@ Definition wf_stmt (st : stmt) : bool :=
   | SImportAs _ a => negb (String.eqb a "__builtins__")
   | SFrom _ _ a => negb (String.eqb a "__builtins__")
   | SDef f ps body => negb (String.eqb f "__builtins__") && nodup_str ps && negb (mem "__builtins__" ps)
+                      && negb (inlining_quirk body)
                       && wf_expr [] false false body
   | SClass c attrs => negb (String.eqb c "__builtins__")
                       && forallb (fun ae => match ae with (_, e) => wf_expr [] false true e end) attrs
